@@ -135,7 +135,7 @@ def defuzzifier_facts(check: Check, cname: str) -> dict:
 
 def _canon(t: Term, iter_t: Term) -> Term:
     """Operands of commutative operators sorted; elements of list(X) / enumerate(X) / X are the elements of X."""
-    from .c09 import normalize
+    from ..npcanon import sort_commutative as normalize
 
     def rec(x):  # type: ignore[no-untyped-def]
         if isinstance(x, tuple) and x and x[0] == "elem" and len(x) == 2:
